@@ -366,7 +366,12 @@ func (c ProtoSliceWrapper) Size(ptr unsafe.Pointer, tag []byte) int {
 	h := *(*sliceHeader)(ptr)
 	var l int
 	for i := 0; i < h.Len; i++ {
-		l += c.Underlying.Size(unsafe.Add(h.Data, uintptr(i)*c.EltSize), tag)
+		s := c.Underlying.Size(unsafe.Add(h.Data, uintptr(i)*c.EltSize), tag)
+		if s == 0 && len(tag) != 0 {
+			// A nil pointer. Its place is kept by an empty element
+			s = len(tag) + 1
+		}
+		l += s
 	}
 	return l
 }
@@ -376,7 +381,13 @@ func (c ProtoSliceWrapper) Size(ptr unsafe.Pointer, tag []byte) int {
 func (c ProtoSliceWrapper) Append(data []byte, ptr unsafe.Pointer, tag []byte) []byte {
 	h := *(*sliceHeader)(ptr)
 	for i := 0; i < h.Len; i++ {
+		before := len(data)
 		data = c.Underlying.Append(data, unsafe.Pointer(uintptr(h.Data)+uintptr(i)*c.EltSize), tag)
+		if len(data) == before && len(tag) != 0 {
+			// A nil pointer. Its place is kept by an empty element
+			data = append(data, tag...)
+			data = append(data, 0)
+		}
 	}
 	return data
 }
